@@ -13,6 +13,10 @@ Case families (each enumerated completely, see enumerate_cases):
   keys      full product SRK key type {P-256/384/521, RSA-2048/3072/4096, leading-zero P-256/384} x DEK blob {absent, present,
             present + encrypted image} x certificate {absent, present (where the family supports it)} on every class
             representative and container version, both tiers, with the tamper sweep
+  hist      object histories on one representative per container version (+ certificate), P-256 and RSA-2048 SRK tables, 1 / 2
+            containers: build+export [-> parse] -> change sw_version / fuse_version / flags / a load address of the last
+            container -> attach the matching signing key (provider, or the `ahab sign` configuration path) ->
+            update_fields() [twice] -> export; the new bytes go to the independent reader
   grid      full product target memory x offset mode x size class x images per container x containers (structural group;
             quick: size classes {1, 13, 1026, 513}, images {1, 3}, containers {1, 2}; thorough: all)
   bytes     every byte (quick: one bit per byte; thorough: every bit while the signed part is <= 1 KiB) of the
@@ -57,6 +61,9 @@ CLAUSES = {
     "C06.valid-layout-refused": "export() refuses with 'Image overlapping' although interval arithmetic on the container "
                                 "headers SPSDK built shows every image inside no other image and behind the containers "
                                 "(disc = Image overlapping:<explicit|automatic>-offsets-disjoint)",
+    "C06.history": "after a legal object history (build/export [-> parse] -> change a signed field -> attach the matching "
+                   "signing key -> update_fields() [twice] -> export) export() refuses, or the independent reader refuses the new "
+                   "bytes, or the changed field is not in them (disc = history:what)",
     "C06.builder-refuses-own-layout": "load_from_config accepted the configuration, but export() (its own verify()) refuses the "
                                       "image because of an ERROR record about a field SPSDK itself computes from the layout "
                                       "(disc = record, normalised; classification: REFUSAL_TABLE)",
@@ -453,6 +460,7 @@ def build_config(p: dict, seed: int, td: str) -> tuple:
                 g["cert"] = gc
                 if gc["perm"] & 1:
                     sign_name = ck
+            g["sign_key"] = sign_name
             if p["sk"] == "provider":
                 cont["signature_provider"] = "type=file;file_path=" + fixtures.key_path(sign_name)
             else:
@@ -1006,6 +1014,153 @@ def run_case(case: dict, seed: int) -> dict:
 
 
 # ---------------------------------------------------------------------------------------------
+# object histories: change a signed field of a signed container and sign again
+
+HIST_KINDS = ("parse-untouched", "parse-modify", "parse-modify-twice", "parse-modify-config", "built-modify", "built-modify-twice")
+HIST_FIELDS = ("sw", "fv", "flags", "load")
+SIGN_HASH = {"p256": "sha256", "p256z": "sha256", "p384": "sha384", "p384z": "sha384", "p521": "sha512",
+             "rsa2048": "sha256", "rsa3072": "sha256", "rsa4096": "sha256"}
+
+
+def _attach_provider(cnt, key_name: str, srk: str) -> None:
+    """What ContainerSignature.load_from_config does for `signing_key`: a file signature provider on the container signature."""
+    from spsdk.crypto.hash import EnumHashAlgorithm
+    from spsdk.crypto.signature_provider import get_signature_provider
+
+    cnt.signature_block.signature.signature_provider = get_signature_provider(
+        local_file_key=fixtures.key_path(key_name), pss_padding=True, hash_alg=EnumHashAlgorithm.from_label(SIGN_HASH[srk]))
+
+
+def run_hist_case(case: dict, seed: int) -> dict:
+    """case: {"i", "k": "s", "d": departures (nc, srk, cert, cv), "h": history kind}.  Every field of HIST_FIELDS in turn."""
+    import copy
+
+    from spsdk.exceptions import SPSDKError, SPSDKVerificationError
+
+    from vf.ref import ahab_ref
+
+    viol: list = []
+    count: dict = {}
+    info = case["i"]
+    hk = case["h"]
+    p = resolve(case)
+    p["_cv_dim"] = "cv" in case.get("d", {})
+    td = tempfile.mkdtemp(prefix="vf-c06-h-", dir=os.environ.get("VERIF_WORKDIR") or None)
+    try:
+        cfg, given = build_config(p, seed, td)
+        fields = ("none",) if hk == "parse-untouched" else HIST_FIELDS
+        ci = p["nc"] - 1  # the last container is the one that is changed; every container gets its key again
+        for fld in fields:
+            try:
+                img, data = spsdk_build(cfg, td)
+            except Rejected as e:
+                return {"viol": [], "count": {"rejected": 1}, "distinct": [], "rejected": str(e).replace(td, "<td>")[:300]}
+            except WrongType as e:
+                return {"viol": [], "count": {"builder_error": 1}, "distinct": [], "builder_error": str(e).replace(td, "<td>")[:300]}
+            count["accepted"] = 1
+            r0 = ahab_ref.examine(data, None, crypto="lib")
+            if r0["problems"] or len(r0["containers"]) != p["nc"]:
+                count["hist_skipped_base_not_clean"] = count.get("hist_skipped_base_not_clean", 0) + 1
+                continue
+            old = r0["containers"][ci]
+            want = {"sw": ("sw_version", (old["sw_version"] + 1) & 0xFFFF), "fv": ("fuse_version", (old["fuse_version"] + 1) & 0xFF),
+                    "flags": ("flags", old["flags"] | (1 << (8 + (p["sid"] + 1) % 4))),  # revoke an SRK that is not the used one
+                    "load": ("load", old["images"][0]["load"] + 0x100), "none": (None, None)}[fld]
+            where = "parse"
+            try:
+                obj = spsdk_parse(p["family"], p["revision"], p["mem"], data) if hk.startswith("parse") else img
+                cnt = obj.ahab_containers[ci]
+                where = "modify"
+                if hk == "parse-modify-config":
+                    # the `nxpimage ahab sign` path: the container takes flags, versions, SRK table, certificate and signing key
+                    # from its (changed) configuration; an image entry is changed on the object
+                    ccfg = copy.deepcopy(cfg["containers"][ci]["container"])
+                    if fld == "sw":
+                        ccfg["sw_version"] = want[1]
+                    elif fld == "fv":
+                        ccfg["fuse_version"] = want[1]
+                    elif fld == "flags":
+                        ccfg["srk_revoke_mask"] = 1 << ((p["sid"] + 1) % 4)
+                    else:
+                        cnt.image_array[0].load_address = want[1]
+                    cnt.load_from_config_generic(ccfg)
+                    for cj, other in enumerate(obj.ahab_containers):
+                        if cj != ci:
+                            _attach_provider(other, given["containers"][cj]["sign_key"], p["srk"])
+                else:
+                    if fld == "sw":
+                        cnt.sw_version = want[1]
+                    elif fld == "fv":
+                        cnt.fuse_version = want[1]
+                    elif fld == "flags":
+                        cnt.flags = want[1]
+                    elif fld == "load":
+                        cnt.image_array[0].load_address = want[1]
+                    if hk.startswith("parse"):
+                        for cj, other in enumerate(obj.ahab_containers):
+                            _attach_provider(other, given["containers"][cj]["sign_key"], p["srk"])
+                where = "update_fields"
+                obj.update_fields()
+                if hk.endswith("twice"):
+                    obj.update_fields()
+                where = "export"
+                new = bytes(obj.export())
+            except SPSDKVerificationError as e:
+                ep = []
+                try:
+                    ep = error_paths(obj.verify())
+                except Exception:  # noqa
+                    pass
+                viol.append(("C06.history", f"{hk}:refused:{short_path(ep[0]) if ep else where}",
+                             f"field {fld}: {where} refuses the changed and re-signed image: {ep[:3] or str(e)[:200]}"))
+                continue
+            except SPSDKError as e:
+                viol.append(("C06.history", f"{hk}:refused:{where}:{type(e).__name__}", f"field {fld}: {where}: {str(e)[:200]}".replace(td, "<td>")))
+                continue
+            except (core.Watchdog, core.HarnessError):
+                raise
+            except Exception as e:  # noqa
+                viol.append(("C06.history", f"{hk}:raises:{type(e).__name__}@{_site(e)}", f"field {fld}: {where}: {type(e).__name__}: {e}"[:300].replace(td, "<td>")))
+                continue
+            count["hist_exports"] = count.get("hist_exports", 0) + 1
+            r = ahab_ref.examine(new, None, crypto="ref" if fld in ("sw", "none") else "lib")
+            for stage, msg in r["problems"]:
+                viol.append(("C06.history", f"{hk}:reader:{stage}", f"field {fld}: {msg}"))
+            if len(r["containers"]) != p["nc"]:
+                viol.append(("C06.history", f"{hk}:reader:container-count", f"field {fld}: {len(r['containers'])} containers"))
+                continue
+            c = r["containers"][ci]
+            if want[0] is not None:
+                got = c["images"][0]["load"] if want[0] == "load" else c[want[0]]
+                if got != want[1]:
+                    viol.append(("C06.history", f"{hk}:field-not-in-bytes:{fld}", f"{want[0]} is {got:#x} in the exported bytes, set to {want[1]:#x}"))
+                if new == data:
+                    viol.append(("C06.history", f"{hk}:bytes-unchanged", f"field {fld}: the export after the change equals the original export"))
+            # everything else stays: images, SRK tables, other containers' headers
+            for cj, (a, b) in enumerate(zip(r0["containers"], r["containers"])):
+                if [(e["start"], e["size"], e["hash"]) for e in a["images"]] != [(e["start"], e["size"], e["hash"]) for e in b["images"]]:
+                    viol.append(("C06.history", f"{hk}:images-moved", f"field {fld}: container {cj}: image placement / hashes differ after the history"))
+                if (a.get("srk_hashes") or []) != (b.get("srk_hashes") or []):
+                    viol.append(("C06.history", f"{hk}:srk-table-changed", f"field {fld}: container {cj}: SRK table differs after the history"))
+            # and SPSDK reads its own result back
+            try:
+                back = spsdk_parse(p["family"], p["revision"], p["mem"], new)
+                ep = error_paths(back.verify())
+                if ep and not r["problems"]:
+                    viol.append(("C06.history", f"{hk}:reparse:{short_path(ep[0])}", f"field {fld}: verify() of the parsed result: {ep[:3]}"))
+                elif bytes(back.export()) != new:
+                    viol.append(("C06.history", f"{hk}:reparse:export-differs", f"field {fld}: parse(export).export() differs"))
+            except (core.Watchdog, core.HarnessError):
+                raise
+            except Exception as e:  # noqa
+                if not r["problems"]:
+                    viol.append(("C06.history", f"{hk}:reparse:raises:{type(e).__name__}", f"field {fld}: {type(e).__name__}: {e}"[:300]))
+        return {"viol": core.dedupe(viol), "count": count, "distinct": [core.short_hash(["hist", info["class"], hk, case.get("d", {})])]}
+    finally:
+        shutil.rmtree(td, ignore_errors=True)
+
+
+# ---------------------------------------------------------------------------------------------
 # nxpimage ahab export / parse / verify
 
 
@@ -1192,6 +1347,8 @@ _SEED = 0
 def w_case(case: dict) -> dict:
     if case.get("cli"):
         return run_cli_case(case, _SEED)
+    if case.get("h"):
+        return run_hist_case(case, _SEED)
     return run_case(case, _SEED)
 
 
@@ -1326,6 +1483,32 @@ def enumerate_cases(tier: str, sv: list) -> dict:
                             d["cv"] = v
                         kp.append({"i": info, "k": "s", "d": d, "t": 1})
     fam["keys"] = kp
+    # object histories: one representative per container version (+ the certificate family), ECC and RSA tables
+    hist = []
+    seen_h = set()
+    for rs in reps:
+        info = rs[0]
+        for v in info["v"]:
+            key = (v, info["cert"] and v == 2)
+            if key in seen_h:
+                continue
+            seen_h.add(key)
+            for srk in ("p256", "rsa2048"):
+                for cert in (("no", "container") if info["cert"] and v == 2 else ("no",)):
+                    for nc in ((1, 2) if srk == "p256" or v == 2 else (1,)):  # an RSA container outgrows a non-last v0 slot
+                        d = {}
+                        if srk != "p256":
+                            d["srk"] = srk
+                        if cert != "no":
+                            d["cert"] = cert
+                        if nc != 1:
+                            d["nc"] = nc
+                        if v != info["v"][0]:
+                            d["cv"] = v
+                        d["sid"] = 1
+                        for hk in HIST_KINDS:
+                            hist.append({"i": info, "k": "s", "d": d, "h": hk})
+    fam["hist"] = hist
     # cli
     cli = []
     for rs in reps:
@@ -1340,7 +1523,7 @@ def enumerate_cases(tier: str, sv: list) -> dict:
     if lat2:
         fam["lat k=2"] = lat2
     # execution order: the cheap families with the widest reach first, the big products last
-    order = ["base", "cli", "keys", "lat k=1", "bytes", "grid", "lat k=2"]
+    order = ["base", "cli", "keys", "hist", "lat k=1", "bytes", "grid", "lat k=2"]
     return {n: fam[n] for n in order if n in fam}
 
 
@@ -1406,13 +1589,13 @@ def run(ctx: core.Ctx) -> None:
             ctx.cov["families"][name] = {"cases": len(cases), "done": 0, "completed": False}
             continue
         n = acc = rej = err = 0
-        heavy = name in ("bytes", "cli", "base", "lat k=1", "keys")
+        heavy = name in ("bytes", "cli", "base", "lat k=1", "keys", "hist")
         gen = ctx.pool_map(w_case, cases, timeout=600 if heavy else 120, initfn=_init_worker, chunksize=1 if heavy else 4,
                            check_det=2)
         cut = False
         for case, res in gen:
             small = {"f": case["i"]["family"], "r": case["i"]["revision"], "i": case["i"], "k": case["k"], "d": case.get("d", {})}
-            for extra in ("t", "tp", "cli"):
+            for extra in ("t", "tp", "cli", "h"):
                 if extra in case:
                     small[extra] = case[extra]
             ok = ctx.absorb(small, res)
